@@ -29,10 +29,12 @@ EXTENDS Plotfile, Json, IOUtils
 Col == INSTANCE Colander WITH Names <- <<>>, MaxLev <- 0, MaxBox <- 0, MaxFile <- 0, MaxVars <- 0, W <- 0,
           SchedMode <- "fifo", Gather <- "by_task",
           inp <- 0, cells <- 0, vars <- 0, lim <- 0, pc <- 0, lv <- 0, tasks <- 0, call <- 0, res <- 0, out <- 0, sched <- 0
-Cmb == INSTANCE Combine WITH Names1 <- <<>>, Names2 <- <<>>, MaxBox <- 0, MapOrder <- "disk", ModeAssign <- "assign",
+Cmb == INSTANCE Combine WITH F1 <- <<>>, F2 <- <<>>, MaxLev <- 0, MaxBox <- 0, MaxFile <- 0, MaxBox2 <- 0, W <- 0, SchedMode <- "fifo",
+          MapOrder <- "disk", ModeAssign <- "assign",
           in1 <- 0, in2 <- 0, cells <- 0, rel <- 0, v1 <- 0, v2 <- 0, pc <- 0, mode <- 0, sel <- 0, lv <- 0, tasks <- 0,
           call <- 0, res <- 0, out <- 0, sched <- 0, outcome <- 0
-Chf == INSTANCE Chef WITH Names <- <<>>, MaxLev <- 0, MaxBox <- 0, MaxFile <- 0, W <- 0, NNewSet <- {}, NamesOrder <- "kept_first",
+Chf == INSTANCE Chef WITH Names <- <<>>, MaxLev <- 0, MaxBox <- 0, MaxFile <- 0, W <- 0, SchedMode <- "fifo", NNewSet <- {},
+          NamesOrder <- "kept_first",
           MapOrder <- "disk",
           inp <- 0, cells <- 0, nnew <- 0, kept <- 0, serial <- 0, pc <- 0, lv <- 0, tasks <- 0, call <- 0, res <- 0, out <- 0,
           sched <- 0
@@ -124,13 +126,16 @@ TRead ==
          why == IF j # "" \/ E = Rdr!Err THEN j
                 ELSE IF R.one # E.one THEN "single-vs-list"
                 ELSE IF Len(R.boxes) # Len(E.boxes) THEN "number-of-boxes"
-                ELSE IF \E i \in DOMAIN E.boxes : R.boxes[i].idx # E.boxes[i].idx THEN "box-order"
+                \* a returned array is identified by its values and shape: `idxs` are the boxes of the level that hold them
+                \* (several when boxes hold identical data, as constant fields of real plotfiles do)
+                ELSE IF \E i \in DOMAIN E.boxes : E.boxes[i].idx \notin Rng(R.boxes[i].idxs) THEN "box-order"
                 ELSE IF \E i \in DOMAIN E.boxes : R.boxes[i].scalar # E.boxes[i].scalar THEN "field-axis"
                 ELSE IF \E i \in DOMAIN E.boxes : R.boxes[i].comps # E.boxes[i].comps THEN "box-data"
                 ELSE ""
      IN /\ viol' = IF why = "" THEN viol ELSE viol \cup {<<tid, l, Line.ev, why>>}
         /\ UNCHANGED <<tid, disk>>
 
+Strip(e) == [comps |-> e.comps, scalar |-> e.scalar]
 TIter ==
   /\ Line.ev = "Iter"
   /\ LET E == Rdr!IterSpec(disk[Line.src], Line.fsel, Line.lv)
@@ -139,7 +144,9 @@ TIter ==
          why == IF j # "" \/ E = Rdr!Err THEN j
                 ELSE IF ~R.stopped THEN "does-not-stop"
                 ELSE IF Len(R.bag) # Cardinality(E.bag) THEN "number-of-boxes-yielded"
-                ELSE IF Rng(R.bag) # E.bag THEN "boxes-yielded"
+                \* as multisets of (values-and-shape tokens, field axis): boxes with identical data are interchangeable
+                ELSE IF \E x \in Rng(R.bag) \cup {Strip(e) : e \in E.bag} :
+                          Cardinality({i \in DOMAIN R.bag : R.bag[i] = x}) # Cardinality({e \in E.bag : Strip(e) = x}) THEN "boxes-yielded"
                 ELSE ""
      IN /\ viol' = IF why = "" THEN viol ELSE viol \cup {<<tid, l, Line.ev, why>>}
         /\ UNCHANGED <<tid, disk>>
